@@ -6,8 +6,8 @@ from .. import scenario
 ID = "C10"
 LEVEL = "fault_enumeration"
 RULE = ("the full cross product (declaration context: module / function / block, each declared as `const C: T = v`, `const C = v`, by "
-        "unpacking `const [C, z] = [v, 0]` or as `export const`; class name / imported module / imported module under another name / imported member) x (type: int, str, bool, [int...], int?, object with a field, optional object, optional list) x (write form: =, += -= *= /= %=, ?= in "
-        "statement / if / while position, modify = from an inner function, c[i] = v, c[i] += v, c.f = v, c.f += v, (get c).f += v, (c or d).f += v, (get c)[i] += v, reuse as "
+        "unpacking `const [C, z] = [v, 0]` or as `export const`; class name / imported module / imported module under another name / imported scalar member / imported list member / a constant followed by a same-named class alias) x (type: int, str, bool, [int...], int?, object with a field, optional object, optional list) x (write form: =, += -= *= /= %=, ?= in "
+        "statement / if / while position, modify = from an inner function (untyped / typed, also after the inner function declared its own variable of that name), c[i] = v, c[i] += v, c.f = v, c.f += v, (get c).f += v, (c or d).f += v, (get c)[i] += v, reuse as "
         "from-loop counter, unpacking) x (write context: same scope, nested block, loop body, nested function, method, another "
         "module), inapplicable combinations skipped by typing, is enumerated completely in both tiers; (c or d) is used with the constant as the present value AND as the fallback. Every write form additionally runs once as a NON-CONST TWIN (the same program without the `const` keyword), which must be accepted and must run: a form that is rejected for a reason other than constness would make the main verdict vacuous (a failing twin is reported as inconclusive, exit 2, never as a violation). Oracle: the program is "
         "rejected at compile time, or - for forms that by the language's rules create a different variable (plain `=` inside a "
@@ -64,6 +64,13 @@ def write_forms(t):
     if t in ("int", "str", "bool", "opt"):
         out.append(("typed-redeclare", "C: %s = %s" % (ann, other), False))
     out.append(("modify", "modify C = %s" % other, True))
+    # the inner function first declares its OWN variable named like the constant (a legal shadow) and then uses `modify`,
+    # which by-passes that local and addresses the captured constant
+    out.append(("shadow-then-modify", "C = %s\nmodify C = %s" % (other, other), True))
+    out.append(("shadow-then-modify-in-block", "if true {\n\tC = %s\n\tmodify C = %s\n}" % (other, other), True))
+    if ann:
+        out.append(("typed-modify", "modify C: %s = %s" % (ann, other), True))
+        out.append(("shadow-then-typed-modify", "C: %s = %s\nmodify C: %s = %s" % (ann, other, ann, other), True))
     return out
 
 
@@ -160,6 +167,22 @@ def special_programs():
             # `not_import_const_bypass` documents that); what must never change is the exporting module's value
             src = "import V, get_v from lib\nimport lib\nprint \"@start\"\n" + place_write(w, ctx) + "\nprint \"@obs\"\nprint lib.V\nprint get_v()\n"
             out.append(({"decl": "imported-member", "type": "int", "form": w.split("\n")[0], "wctx": ctx}, {"main.ms": src, "lib.ms": lib}, "5"))
+        # imported members that are CONTAINERS are shared with the exporting module: an index assignment rooted at the imported name
+        # would change the module's state for every importer (for `export const` and for plain `export` alike)
+        liblist = ("export const LC: [int...] = [1, 2, 3]\nexport LV: [int...] = [1, 2, 3]\nexport peek_c: fn() -> [int...] = fn() -> [int...] {\n\treturn LC\n}\n"
+                   "export peek_v: fn() -> [int...] = fn() -> [int...] {\n\treturn LV\n}\n")
+        for name, peek in (("LC", "peek_c"), ("LV", "peek_v")):
+            for w in ("%s[0] = 9", "%s[1] += 40", "%s[2] -= 1", "modify %s = [9]"):
+                w = w % name
+                if w.startswith("modify") and ctx != "fn":
+                    continue
+                src = "import %s, %s from lib\nimport lib\nprint \"@start\"\n" % (name, peek) + place_write(w, ctx) + "\nprint \"@obs\"\nprint lib.%s\nprint %s()\n" % (name, peek)
+                out.append(({"decl": "imported-list-member" + ("/const" if name == "LC" else ""), "type": "list", "form": w.replace(name, "L"), "wctx": ctx}, {"main.ms": src, "lib.ms": liblist}, "[1, 2, 3]"))
+        # a type alias of a class declared AFTER a constant of the same name must not unseat the constant; the alias itself is
+        # a name for the constructor and cannot be reassigned
+        for w in ("type C K\nC = K()\nC.f = 9", "type C K\nC.f = 9", "type Al K\nAl = K", "type Al K\nAl = 5"):
+            src = kclass + "print \"@start\"\nconst C = K()\nrd = fn() -> int {\n\treturn C.f\n}\n" + place_write(w if ctx != "fn" else w, ctx) + "\nprint \"@obs\"\nprint C.f\nprint rd()\n"
+            out.append(({"decl": "const-then-type-alias", "type": "obj", "form": w.replace("\n", "; "), "wctx": ctx}, {"main.ms": src}, "1"))
     return out
 
 
